@@ -7,7 +7,7 @@ extra = sys.argv[3] if len(sys.argv) > 3 else ""
 p = {json.loads(l)['id']: json.loads(l) for l in open('/verif/properties.jsonl')}[pid]
 print(f"""You are helping evaluate a verification effort for the PRQL compiler (Rust, crate `prqlc`, repository max-sixty/prql). Your job is to act as a realistic source of regressions.
 
-You have your own scratch git worktree of the repository at {wt} (detached HEAD at the pinned commit). Work ONLY inside {wt}. Never read or write /repo or /verif. The sandbox has no network; use `cargo ... --offline`. Build output goes to {wt}/target (default) - do not set a shared target dir.
+You have your own scratch git worktree of the repository at {wt} (detached HEAD at the current main). Work ONLY inside {wt}. Never read or write /repo or /verif. The sandbox has no network; use `cargo ... --offline`. Build output goes to {wt}/target (default) - do not set a shared target dir.
 
 PROPERTY ({pid}: {p['title']})
 {p['statement']}
@@ -21,9 +21,9 @@ Make ONE small, realistic change to the compiler source under {wt}/prqlc (the ki
  4. the breakage needs something specific to manifest - an unusual but legitimate input, a particular combination of transforms, a multi-step pipeline, a boundary value, a specific dialect, two cooperating code sites - NOT something ordinary use or a trivial query would expose at once. {extra}
 
 DELIVERABLES (all inside {wt}/MUTANT/, create the directory):
- - patch.diff : output of `git -C {wt} diff -- prqlc` (source change only; must apply with `git apply` on the pinned commit). Do not commit.
+ - patch.diff : output of `git -C {wt} diff -- prqlc` (source change only; must apply with `git apply` on that commit). Do not commit.
  - demo.sh (executable) plus whatever files it needs (e.g. demo.prql, demo.py, a small Rust test file): a demonstration that exits 0 and prints PASS on the UNCHANGED compiler and exits non-zero printing FAIL on the changed one. It must build/run the compiler from the worktree it is run in (take the repository root as $1, default {wt}); e.g. `cargo run -q -p prqlc --offline --manifest-path $1/Cargo.toml -- compile --hide-signature-comment -t sql.sqlite demo.prql`, and where table contents matter execute the emitted SQL with python3's sqlite3 module and compare with the expected rows.
  - notes.md : which file/function you changed, why the existing tests do not notice, exactly what is needed to trigger it, and the wrong vs right behaviour for your demo input.
-Verify the demo yourself in both states (use `git stash` / `git stash pop` or `git apply -R` to toggle) before finishing, and leave the worktree WITH the change applied. Be frugal with CPU: use at most `-j 6` for cargo.
+Verify the demo yourself in both states (toggle with `git apply -R MUTANT/patch.diff` / `git apply MUTANT/patch.diff`; NEVER use `git stash`: the stash is shared between all worktrees of the repository and other agents work in sibling worktrees) before finishing, and leave the worktree WITH the change applied. Be frugal with CPU: use at most `-j 6` for cargo.
 
 Report back: a 10-line summary (changed site, trigger, demo result before/after, test-suite result).""")
